@@ -575,6 +575,65 @@ pub mod iter {
         {
             C::from_par_iter(self)
         }
+
+        /// `fold`: one accumulator per block of items; the stand-in's blocks are its workers'
+        /// chunks (rayon may split anywhere, so any blocking is legal)
+        fn fold<T, ID, F>(self, identity: ID, fold_op: F) -> Items<T>
+        where
+            F: Fn(T, Self::Item) -> T + Sync + Send,
+            ID: Fn() -> T + Sync + Send,
+            T: Send,
+        {
+            Items(
+                self.chunks()
+                    .into_iter()
+                    .map(|c| {
+                        let mut acc = identity();
+                        for x in c {
+                            acc = fold_op(acc, x);
+                        }
+                        acc
+                    })
+                    .collect(),
+            )
+        }
+
+        /// splitting hints: accepted, without effect (results must not depend on them)
+        fn with_min_len(self, _min: usize) -> Self {
+            self
+        }
+
+        fn with_max_len(self, _max: usize) -> Self {
+            self
+        }
+
+        fn max_by<F>(self, f: F) -> Option<Self::Item>
+        where
+            F: Fn(&Self::Item, &Self::Item) -> std::cmp::Ordering + Sync + Send,
+        {
+            self.ordered().into_iter().max_by(|a, b| f(a, b))
+        }
+
+        fn min_by<F>(self, f: F) -> Option<Self::Item>
+        where
+            F: Fn(&Self::Item, &Self::Item) -> std::cmp::Ordering + Sync + Send,
+        {
+            self.ordered().into_iter().min_by(|a, b| f(a, b))
+        }
+
+        fn any<P>(self, p: P) -> bool
+        where
+            P: Fn(Self::Item) -> bool + Sync + Send,
+        {
+            self.map(p).chunks().into_iter().flatten().any(|b| b)
+        }
+
+        fn all<P>(self, p: P) -> bool
+        where
+            P: Fn(Self::Item) -> bool + Sync + Send,
+        {
+            self.map(p).chunks().into_iter().flatten().all(|b| b)
+        }
     }
 
     /// every iterator of the stand-in knows its order, so the indexed adaptors live here
@@ -815,6 +874,43 @@ pub mod iter {
         }
     }
 
+    /// `par_chunks` and friends on slices
+    pub trait ParallelSlice<T: Sync> {
+        fn as_parallel_slice(&self) -> &[T];
+
+        fn par_chunks(&self, size: usize) -> Items<&[T]> {
+            Items(self.as_parallel_slice().chunks(size).collect())
+        }
+
+        fn par_chunks_exact(&self, size: usize) -> Items<&[T]> {
+            Items(self.as_parallel_slice().chunks_exact(size).collect())
+        }
+    }
+
+    impl<T: Sync> ParallelSlice<T> for [T] {
+        fn as_parallel_slice(&self) -> &[T] {
+            self
+        }
+    }
+
+    pub trait ParallelSliceMut<T: Send> {
+        fn as_parallel_slice_mut(&mut self) -> &mut [T];
+
+        fn par_chunks_mut(&mut self, size: usize) -> Items<&mut [T]> {
+            Items(self.as_parallel_slice_mut().chunks_mut(size).collect())
+        }
+
+        fn par_chunks_exact_mut(&mut self, size: usize) -> Items<&mut [T]> {
+            Items(self.as_parallel_slice_mut().chunks_exact_mut(size).collect())
+        }
+    }
+
+    impl<T: Send> ParallelSliceMut<T> for [T] {
+        fn as_parallel_slice_mut(&mut self) -> &mut [T] {
+            self
+        }
+    }
+
     pub trait IntoParallelRefMutIterator<'data> {
         type Iter: ParallelIterator<Item = Self::Item>;
         type Item: Send + 'data;
@@ -838,10 +934,15 @@ pub mod iter {
     }
 }
 
+pub mod slice {
+    pub use crate::iter::{ParallelSlice, ParallelSliceMut};
+}
+
 pub mod prelude {
     pub use crate::iter::{
         FromParallelIterator, IndexedParallelIterator, IntoParallelIterator, IntoParallelRefIterator, IntoParallelRefMutIterator, ParallelDrainRange, ParallelExtend, ParallelIterator,
     };
+    pub use crate::slice::{ParallelSlice, ParallelSliceMut};
 }
 
 /// `rayon::join`: both closures may run on different workers, in either order.
